@@ -158,7 +158,7 @@ LBk(a, key) == LBrec(a, key, 0, Len(a))
 LBink(a, key, lo, hi) == LBrec(a, key, lo, hi)
 PresentK(a, key) == LET p == LBk(a, key) IN p < Len(a) /\ a[p + 1] = key
 ShapeOK(S) == S.lo <= S.hi /\ S.hi <= n /\ S.hi - S.lo <= 2 * R.eps + 2 /\ S.lo <= S.pos
-C01OK(S) == PresentK(data, S.q) => (ShapeOK(S) /\ S.lo <= LBk(data, S.q) /\ LBk(data, S.q) < S.hi)
+C01OK(S) == PresentK(data, S.q) => ((R.cls = "PGMIndex" => ShapeOK(S)) /\ S.lo <= LBk(data, S.q) /\ LBk(data, S.q) < S.hi)
 C02OK(S) == S.lo <= S.hi /\ S.hi <= n /\ LBink(data, S.q, S.lo, S.hi) = LBk(data, S.q)
 \* route entry: <<level, predicted, window lo, window hi (0: linear scan), chosen, level size>>
 RouteOK(S, r) ==
@@ -188,12 +188,34 @@ FormulaOK(S) ==
   IN j >= 1 /\ (L.sl[j][2] # 0 /\ S.q < 16000 =>
                   S.pos \in poss /\ S.lo = SubEps(S.pos, R.eps) /\ S.hi = AddEps(S.pos, R.eps, n))
 
+\* the variants: same contract (without the statement about pos), plus what each class promises about its top structure
+ShapeV(S) == S.lo <= S.hi /\ S.hi <= n /\ S.hi - S.lo <= 2 * R.eps + 2
+KClamp(S) == IF S.q < data[1] THEN data[1] ELSE S.q
+\* rightmost segment (0-based) starting at or before the key, among all entries but the sentinel
+RespOf(skeys, key) == UBrec(skeys, key, 0, Len(skeys) - 1) - 1
+BucketingOK(S) ==
+  IF S.q < data[1] THEN S.pos = 0 /\ S.lo = 0 /\ S.hi = 0
+  ELSE IF S.q > data[n] THEN S.pos = n /\ S.lo = n /\ S.hi = n
+  ELSE LET resp == RespOf(B.skeys, S.q) IN
+       /\ S.bk >= 0 /\ S.bk + 2 <= Len(B.top)
+       /\ S.sl = <<B.top[S.bk + 1], B.top[S.bk + 2]>>
+       /\ S.sl[1] - 1 <= resp /\ resp < S.sl[2]       \* the slice (or the segment just before it) holds the responsible segment
+       /\ S.seg = resp
+       /\ S.sl[2] <= Len(B.skeys)
+EliasFanoOK(S) == LET resp == RespOf(B.skeys, KClamp(S)) IN
+                  /\ S.pr[1] = resp /\ S.pr[2] = B.skeys[resp + 1]
+VariantOK(S) == CASE R.cls = "Bucketing" -> BucketingOK(S)
+                  [] R.cls = "EliasFano" -> EliasFanoOK(S)
+                  [] OTHER -> TRUE
+
 TSearch ==
   /\ IsEvent("Search")
   /\ LET S == Ev IN
      /\ nviol' = nviol + CountFailed(<<
             <<C01OK(S), IF R.cls = "PGMIndex" THEN "C01" ELSE R.prop, "first_occurrence_outside_range">>,
             <<C02OK(S), IF R.cls = "PGMIndex" THEN "C02" ELSE R.prop, "lower_bound_outside_range">>,
+            <<R.cls # "PGMIndex" => ShapeV(S), IF R.cls = "PGMIndex" THEN "C01" ELSE R.prop, "range_shape">>,
+            <<R.cls # "PGMIndex" => VariantOK(S), IF R.cls = "PGMIndex" THEN "C01" ELSE R.prop, "top_structure_selected_wrong_segment">>,
             <<R.cls = "PGMIndex" => C07OK(S), "C07", "descent_outside_window">> >>, 1)
      /\ IF Offset /\ R.cls = "PGMIndex" /\ B.out = "ok" /\ ~FormulaOK(S)
         THEN PrintT(<<"TRACE-DRIFT", "C01", l, x, "result_not_by_formula">>) /\ ndrift' = ndrift + 1
